@@ -4,6 +4,7 @@
  "file": "expr.c", "function": "assignexpr", "also_functions": ["mkassignexpr", "mkunaryexpr", "mkbinaryexpr"],
  "properties": {"C01": "contract", "C10": "contract", "C19": "safety"},
  "mode": "harness",
+ "replace_calls": {"condexpr": "stub_condexpr"}, "replay": false,
  "link_repo": ["type.c"],
  "unwind": 4,
  "variants": {"MUL": ["-DV_TOK=TMULASSIGN"], "DIV": ["-DV_TOK=TDIVASSIGN"], "MOD": ["-DV_TOK=TMODASSIGN"], "ADD": ["-DV_TOK=TADDASSIGN"], "SUB": ["-DV_TOK=TSUBASSIGN"], "SHL": ["-DV_TOK=TSHLASSIGN"], "SHR": ["-DV_TOK=TSHRASSIGN"], "BAND": ["-DV_TOK=TBANDASSIGN"], "XOR": ["-DV_TOK=TXORASSIGN"], "BOR": ["-DV_TOK=TBORASSIGN"]},
@@ -14,9 +15,7 @@
              "operand types int/unsigned int (the typing of other operand pairs is EXPR.mkbinary.*'s business)"]
 }
 */
-#define condexpr real_condexpr
 #include "expr.c"
-#undef condexpr
 #include "verif.h"
 
 struct token tok;
@@ -28,8 +27,7 @@ struct expr *eval(struct expr *e) { return e; }
 void next(void) { tok.kind = TSEMICOLON; }
 
 /* the parser below assignexpr: first call yields the left operand, second the right */
-#define condexpr verif_condexpr_unused
-static struct expr *stub_condexpr(struct scope *s) { return g_operand[g_ncond++ & 1]; }
+struct expr *stub_condexpr(struct scope *s) { return g_operand[g_ncond++ & 1]; }
 
 /*
  * C11 6.5.16.2p3: "A compound assignment of the form E1 op= E2 is equivalent to the simple assignment expression
@@ -39,6 +37,8 @@ static struct expr *stub_condexpr(struct scope *s) { return g_operand[g_ncond++ 
  * one spelled, and E1 itself appears exactly once (under the address-of).
  */
 static struct expr *strip(struct expr *e) { while (e->kind == EXPRCAST) e = e->base; return e; }
+/* read through a function parameter: CBMC 6.11 mis-resolves a nested dereference through a pointer read from the union in struct expr */
+static struct type *typeof_(struct expr *e) { return e->type; }
 
 void
 harness(void)
@@ -85,7 +85,7 @@ harness(void)
 	bl = strip(bin->u.binary.l);
 	__CPROVER_assert(bl->kind == EXPRUNARY && bl->op == TMUL && bl->base == tmp, "left operand of op is the old value *T");
 	__CPROVER_assert(strip(bin->u.binary.r) == &r0, "right operand of op is E2");
-	__CPROVER_assert(a2->u.assign.r->type == l0.type, "result converted to E1's type before the store");
+	__CPROVER_assert(typeof_(a2->u.assign.r) == l0.type, "result converted to E1's type before the store");
 #ifdef VERIF_CANARY
 	__CPROVER_assert(in_tok != TSHLASSIGN, "CANARY");
 #endif
